@@ -406,7 +406,8 @@ Definition run_bops (ops : list bop) : bytes := fold_left bstep ops [].
      CTransportEnable o Client.EnableDump(o) = Transport.EnableDump: a new Dumper on o's own struct *)
 Inductive cop :=
 | CSetCommon (o : options) | CEnableAll | CEnableAllTo (w : writer) | CDisableAll
-| CTransportEnable (o : options).
+| CTransportEnable (o : options)
+| CWithout (ps : list part).   (* EnableDumpAllWithoutXxx: parts of the struct off, then EnableDumpAll *)
 
 Record cstate := mkC { c_opts : option options; c_has : bool; c_linked : bool; c_own : option options }.
 
@@ -426,6 +427,7 @@ Definition cstep (st : cstate) (op : cop) : cstate :=
   | CEnableAllTo w => enable_all (set_out cur (Some w))
   | CDisableAll => mkC (c_opts st) false (c_linked st) (c_own st)
   | CTransportEnable o => mkC (c_opts st) true false (Some (new_dumper o))
+  | CWithout ps => enable_all (switch_off ps cur)
   end.
 
 Definition c0 : cstate := mkC None false false None.
